@@ -474,6 +474,19 @@ func (e *Env) eval(ex ast.Expr) (SVal, error) {
 				return v, nil
 			}
 			if e.St.Zero[keyBase(base.Loc)] {
+				if base.GoT != nil {
+					if st, ok := isStruct(derefType(base.GoT)); ok {
+						found := false
+						for i := 0; i < st.NumFields(); i++ {
+							if st.Field(i).Name() == ex.Sel.Name {
+								found = true
+							}
+						}
+						if !found {
+							return SVal{}, fmt.Errorf("contract does not bind: %s has no field %s", typeShort(derefType(base.GoT)), ex.Sel.Name)
+						}
+					}
+				}
 				return SVal{}, fmt.Errorf("field %s of fresh object never written on this path", ex.Sel.Name)
 			}
 			if base.Loc == e.Recv && e.FieldType != nil {
